@@ -31,6 +31,7 @@ REGISTRY = {
     "T7unseen": ("T7unseen.v", "t7_unseen", "gen"),
     "T7hist": ("T7hist.v", "t7_hist", "gen"),
     "T7pipe": ("T7pipe.v", "t7_pipe", "gen"),
+    "T7chain": ("T7chain.v", "t7_chain", "gen"),
     "T7inplace": ("T7inplace.v", "t7_inplace", "gen"),
     "T7mic": ("T7mic.v", "t7_mic", "gen"),
     "T7lazy": ("T7lazy.v", "t7_lazy", "gen"),
